@@ -185,10 +185,10 @@ def replay(r):
     if 'lost' in r:
         from .c15 import run_transient
         _, outs, shorts = run_transient(cfg, r['lost'], probe_reads=True)
-        return dict(outcomes=outs, violations=sorted({x[0] for x in shorts}))
+        return dict(outcomes=outs, violations=[('reads-inside-answer', x) for x in sorted({x[0] for x in shorts}) if x not in ('apparent_power2', 'apparent_power3')])
     if 'changes' in r:
         from .c15 import run_dynamic
         _, outs, shorts = run_dynamic(cfg, r['changes'], probe_reads=True)
-        return dict(outcomes=outs, violations=sorted({x[0] for x in shorts}))
+        return dict(outcomes=outs, violations=[('reads-inside-answer', x) for x in sorted({x[0] for x in shorts}) if x not in ('apparent_power2', 'apparent_power3')])
     vio, nr, oc = run_config(cfg, r['transport'])
     return dict(outcome=oc, reads=nr, violations=vio)
